@@ -5,7 +5,7 @@ root = os.path.dirname(os.path.dirname(os.path.abspath(__file__)))
 d10 = os.path.join(root, "tools", "design10")
 tab = subprocess.run(["python3", os.path.join(root, "tools", "status_table.py")], capture_output=True, text=True).stdout
 per = ["\n### 10.3 Per property: harness entries, quick bounds, measured exploration (from the evidence of the last quick run)\n",
-       "Parameters are harness-specific sizes (numbers of stores, series, replicas, samples, bytes …); `paths` = feasible paths completed, `decisions` = solver-checked branches, concretisations, schedule choices. Thorough tiers use the next larger sizes (see `specs/<id>.json`) under the 180 s/harness budget.\n\n", tab, "\nAssumptions (A) and what lies outside each claim (O), as also written to every evidence file:\n"]
+       "Parameters are harness-specific sizes (numbers of stores, series, replicas, samples, bytes …); `paths` = feasible paths completed, `decisions` = solver-checked branches, concretisations, schedule choices. Thorough tiers use the next larger sizes (see `specs/<id>.json`) under the 120 s/harness budget.\n\n", tab, "\nAssumptions (A) and what lies outside each claim (O), as also written to every evidence file:\n"]
 for sp in sorted(glob.glob(os.path.join(root, "specs", "C*.json"))):
     s = json.load(open(sp))
     if not s.get("registered"): continue
